@@ -123,10 +123,15 @@ prop("C19", "errors keep their cause and their retry handle", "exploration",
      "through; retry handles: request kind x (packet index, write failure | link closed | context cancelled) x 1..3 successive "
      "interruptions on fresh clients: the error implements ErrorWithRetry, errors.Is finds exactly the cause, Retry on a fresh "
      "client re-issues the same request (strictly decoded) and succeeds when acknowledged. Non-trivial = chain depth >= 2 with "
-     ">= 1 library wrapper / every retry case; distinct = FNV-64 of the case JSON.",
+     ">= 1 library wrapper / every retry case; distinct = FNV-64 of the case JSON. The caller's context ends by cancel, by cancel with an explicit "
+     "cause (context.WithCancelCause with io.EOF / an application error: Err() is still context.Canceled, the cause must not replace it) or by "
+     "its deadline (a Context of the harness' own, expired exactly at the interruption point). ConnectCancel: ReconnectClient.Connect after "
+     "0..4 failed attempts (refused CONNACK codes 1..5, dial errors incl. ones carrying a context error) whose context then ends: the returned "
+     "error must satisfy errors.Is(err, ctx.Err()).",
      [dict(tests="^TestVerifC19_Chains$", checks_quick=30000, checks_thorough=1200000, shards=6),
       dict(tests="^TestVerifC19_Retry$", checks_quick=3000, checks_thorough=90000, shards=8),
-      dict(tests="^TestVerifC19_ResponseTimeout$", checks_quick=500, checks_thorough=9000, shards=6)],
+      dict(tests="^TestVerifC19_ResponseTimeout$", checks_quick=500, checks_thorough=9000, shards=6),
+      dict(tests="^TestVerifC19_ConnectCancel$", checks_quick=400, checks_thorough=6000, shards=4, shards_quick=1)],
      assumptions=["error types outside the stated domain (pointer-to-non-struct errors, uncomparable value errors) are not generated",
                   "nodes hidden behind an opaque layer or reachable only via the reflection fallback are not asserted either way"])
 
